@@ -96,6 +96,19 @@ class Built:
         return d
 
 
+def _maybe_falsy(cls):
+    """Now and then the falsy user-defined twin of a stock kind (vf.userkinds)."""
+    if FORMS["rng"] is None or FORMS["rng"].random() >= 0.08:
+        return cls
+    from vf import userkinds as UK
+
+    import sym_metanet as M_
+
+    FORM_STATS["falsy twins of stock kinds"] = FORM_STATS.get("falsy twins of stock kinds", 0) + 1
+    return {M_.Link: UK.QuietLink, M_.LinkWithVsl: UK.CountingVslLink, M_.Destination: UK.QuietDestination,
+            M_.CongestedDestination: UK.CountingCongestedDestination, M_.MainstreamOrigin: UK.QuietMainstream, M_.Origin: UK.CountingOrigin}.get(cls, cls)
+
+
 def make_objects(M, desc, param_override=None, node_names=None):
     """Creates the library objects of a description (no network yet).
 
@@ -139,7 +152,7 @@ def make_objects(M, desc, param_override=None, node_names=None):
                     signs = (int(t) for t in ",".join(map(str, signs)).split(",") if t != "")  # parsed from a config string
                 elif k_ < 0.6:
                     signs = iter(signs)
-            links[l["id"]] = callform(M.LinkWithVsl, ORDER["Link"], vals, 8,
+            links[l["id"]] = callform(_maybe_falsy(M.LinkWithVsl), ORDER["Link"], vals, 8,
                                       extra={"segments_with_vsl": signs, "alpha": g("alpha")})
             if isinstance(signs, list):
                 if r_.random() < 0.5:
@@ -153,7 +166,7 @@ def make_objects(M, desc, param_override=None, node_names=None):
             links[l["id"]] = callform(UK.WorkZoneLink, ORDER["Link"], vals, 8,
                                       extra={"capacity": l.get("user_cap"), "reorder": bool(l.get("user_reorder"))})
         else:
-            links[l["id"]] = callform(M.Link, ORDER["Link"], vals, 8)
+            links[l["id"]] = callform(_maybe_falsy(M.Link), ORDER["Link"], vals, 8)
     origins = {}
     for o in desc["origins"]:
         C = po.get((o["id"], "C"), o.get("C"))
@@ -162,13 +175,13 @@ def make_objects(M, desc, param_override=None, node_names=None):
 
             origins[o["id"]] = UK.BoundaryOrigin(flow=o.get("user_q"), speed=o.get("user_v"), name=o["name"])
         elif o["kind"] == "ideal":
-            origins[o["id"]] = callform(M.Origin, ORDER["named"], {"name": o["name"]})
+            origins[o["id"]] = callform(_maybe_falsy(M.Origin), ORDER["named"], {"name": o["name"]})
         elif o["kind"] == "main" and o.get("user_cap_flow") is not None:
             from vf import userkinds as UK
 
             origins[o["id"]] = UK.TollPlaza(name=o["name"], cap=o["user_cap_flow"])
         elif o["kind"] == "main":
-            origins[o["id"]] = callform(M.MainstreamOrigin, ORDER["named"], {"name": o["name"]})
+            origins[o["id"]] = callform(_maybe_falsy(M.MainstreamOrigin), ORDER["named"], {"name": o["name"]})
         elif o["kind"] in ("ramp", "simple"):
             cls = M.MeteredOnRamp if o["kind"] == "ramp" else M.SimplifiedMeteredOnRamp
             if FORMS["rng"] is not None and FORMS["rng"].random() < 0.12:
@@ -183,7 +196,7 @@ def make_objects(M, desc, param_override=None, node_names=None):
     dests = {}
     for d in desc["dests"]:
         cls = M.Destination if d["kind"] == "free" else M.CongestedDestination
-        dests[d["id"]] = callform(cls, ORDER["named"], {"name": d["name"]})
+        dests[d["id"]] = callform(_maybe_falsy(cls), ORDER["named"], {"name": d["name"]})
     return nodes, links, origins, dests
 
 
